@@ -564,8 +564,82 @@ func c19Exec4(r *Run, line string, f []string) string {
 		return strings.Join(hx, ",")
 	case "lkscan":
 		return c19LkScan(r, line, f)
+	case "dnkey":
+		return Hex(c19DnKey(f[1], unhex(f[2])))
+	case "dncmp":
+		ka, kb := c19DnKey(f[1], unhex(f[2])), c19DnKey(f[3], unhex(f[4]))
+		eq := bytes.Equal(ka, kb)
+		scan := bytes.HasPrefix(kb, c19DnPrefix[f[1]])
+		// monitors: equal keys only for the same (family, component); family scan stays inside the family
+		same := f[1] == f[3] && (f[2] == f[4] || f[1] == "6")
+		if eq != same {
+			r.Violate("C19/dymns_keys/collision", fmt.Sprintf("families %s,%s keys %x %x", f[1], f[3], ka, kb), line)
+		}
+		if scan != (f[1] == f[3]) {
+			r.Violate("C19/dymns_keys/family-scan-returns-other-family", fmt.Sprintf("prefix of family %s matches key %x of family %s", f[1], kb, f[3]), line)
+		}
+		return fmt.Sprintf("%v %v", eq, scan)
 	}
 	return "bad-op"
+}
+
+var c19DnPrefix = map[string][]byte{
+	"0": dymnstypes.KeyPrefixDymName, "1": dymnstypes.KeyPrefixRvlDymNamesOwnedByAccount,
+	"2": dymnstypes.KeyPrefixRvlConfiguredAddressToDymNamesInclude, "3": dymnstypes.KeyPrefixRvlFallbackAddressToDymNamesInclude,
+	"4": dymnstypes.KeyPrefixDymNameSellOrder, "5": dymnstypes.KeyPrefixAliasSellOrder, "6": dymnstypes.KeyCountBuyOrders,
+	"7": dymnstypes.KeyPrefixBuyOrder, "8": dymnstypes.KeyPrefixRvlBuyerToBuyOrderIds, "9": dymnstypes.KeyPrefixRvlDymNameToBuyOrderIds,
+	"10": dymnstypes.KeyPrefixRvlAliasToBuyOrderIds, "11": dymnstypes.KeyPrefixRollAppIdToAliases, "12": dymnstypes.KeyPrefixRvlAliasToRollAppId,
+}
+
+// c19DnKey: the real x/dymns key builder of a family
+func c19DnKey(fam string, c []byte) []byte {
+	switch fam {
+	case "0":
+		return dymnstypes.DymNameKey(string(c))
+	case "1":
+		return dymnstypes.DymNamesOwnedByAccountRvlKey(sdk.AccAddress(c))
+	case "2":
+		return dymnstypes.ConfiguredAddressToDymNamesIncludeRvlKey(string(c))
+	case "3":
+		return dymnstypes.FallbackAddressToDymNamesIncludeRvlKey(dymnstypes.FallbackAddress(c))
+	case "4":
+		return dymnstypes.SellOrderKey(string(c), dymnstypes.TypeName)
+	case "5":
+		return dymnstypes.SellOrderKey(string(c), dymnstypes.TypeAlias)
+	case "6":
+		return dymnstypes.KeyCountBuyOrders
+	case "7":
+		return dymnstypes.BuyOrderKey(string(c))
+	case "8":
+		return dymnstypes.BuyerToOrderIdsRvlKey(c)
+	case "9":
+		return dymnstypes.DymNameToBuyOrderIdsRvlKey(string(c))
+	case "10":
+		return dymnstypes.AliasToBuyOrderIdsRvlKey(string(c))
+	case "11":
+		return dymnstypes.RollAppIdToAliasesKey(string(c))
+	}
+	return dymnstypes.AliasToRollAppIdRvlKey(string(c))
+}
+
+// c19DnComp: components that could confuse families: names/aliases that are prefixes of each other,
+// components starting with another family's prefix byte or asset-type byte, empty, created buy-order ids
+func c19DnComp(g *Rng) []byte {
+	switch g.Intn(7) {
+	case 0:
+		return []byte(c19Names[g.Intn(len(c19Names))])
+	case 1:
+		return append([]byte{byte(g.Intn(14))}, []byte(c19Names[g.Intn(len(c19Names))])...)
+	case 2:
+		return append([]byte{byte(g.Intn(2))}, []byte(c19Names[g.Intn(len(c19Names))])...)
+	case 3:
+		return nil
+	case 4:
+		return []byte(dymnstypes.CreateBuyOrderId([]dymnstypes.AssetType{dymnstypes.TypeName, dymnstypes.TypeAlias}[g.Intn(2)], 1+c19Num(g)%1000))
+	case 5:
+		return c19Owner(g)
+	}
+	return c19Bytes(g)
 }
 
 func uniqBytes(xs [][]byte) [][]byte {
@@ -826,7 +900,7 @@ func c19Gen4(r *Run, g *Rng, emit func(kind, line string)) {
 	dur := func() int64 { return c19Durs[g.Intn(len(c19Durs))] }
 	tm := func() time.Time { return c19GenTime(g, false) }
 	id := func() uint64 { return c19Num(g) }
-	switch g.Intn(12) {
+	switch g.Intn(17) {
 	case 0:
 		n := 1 + g.Intn(4)
 		var parts []string
@@ -907,6 +981,22 @@ func c19Gen4(r *Run, g *Rng, emit func(kind, line string)) {
 			b = a
 		}
 		emit("lkscan-denall", fmt.Sprintf("lkscan denall %d %s | %s %d %d", g.Intn(2), a, b, dur(), id()))
+	case 12, 13:
+		emit("dnkey", fmt.Sprintf("dnkey %d %s", g.Intn(13), Hex(c19DnComp(g))))
+	case 14, 15, 16:
+		fa, fb := g.Intn(13), g.Intn(13)
+		if g.Chance(40) {
+			fb = fa
+		}
+		if g.Chance(30) { // the two-byte-prefix neighbours
+			p := [][2]int{{4, 5}, {9, 10}, {4, 9}, {5, 10}}[g.Intn(4)]
+			fa, fb = p[0], p[1]
+		}
+		ca, cb := c19DnComp(g), c19DnComp(g)
+		if g.Chance(40) {
+			cb = ca
+		}
+		emit("dncmp", fmt.Sprintf("dncmp %d %s %d %s", fa, Hex(ca), fb, Hex(cb)))
 	}
 }
 
@@ -997,7 +1087,7 @@ func TestC19(t *testing.T) {
 		ch := fmt.Sprintf("channel-%d", g.Intn(300))
 		return fmt.Sprintf("%d %s %d %d %s %d", g.Intn(2), Hex([]byte(c19RollappID(g))), g.BoundaryU64(), g.Intn(4), Hex([]byte(ch)), g.BoundaryU64())
 	}
-	n := r.N(14000, 200000)
+	n := r.N(16000, 220000)
 	for i := 0; i < n; i++ {
 		if g.Chance(70) {
 			switch g.Intn(3) {
